@@ -1,6 +1,6 @@
 \* evaluate given histories with the as-built switches (flatten copies the requested class, C05 fix)
 CONSTANTS DeepCopyRebindsParents = FALSE CopyHookBoundToCopy = FALSE FlattenCopiesTop = TRUE
-          Universe = "full" MaxTrees = 4 MaxOps = 1000000
+          Lib = "flat" Universe = "full" MaxTrees = 4 MaxOps = 1000000
 INIT TInit
 NEXT TNext
 VIEW TView
